@@ -521,6 +521,21 @@ def check_wrappers(case, rec):
                             require(ef <= tk and ev <= tk * 1.2,
                                     f"krige: {nc} conditions x {nn} targets in one call: estimate / variance differ from the direct solve by {ef:.3g} / {ev:.3g} (tol {tk:.3g})",
                                     dict(tags, kind="wrapper_vs_defining_sum"))
+                    if nn == n:
+                        # the estimate-only kernel and the estimate-and-variance kernel deliver the same estimate on one object, also after
+                        # the mean of a simple-kriging object was re-assigned between two estimate-only calls
+                        ks = gs.krige.Simple(model, cp, cv, mean=0.4)
+                        e1 = np.asarray(lib(ks, pk, return_var=False, _tags=tags))
+                        b1 = np.asarray(lib(ks, pk, _tags=tags)[0])
+                        ks.mean = -1.3
+                        e2 = np.asarray(lib(ks, pk, return_var=False, _tags=tags))
+                        b2 = np.asarray(lib(ks, pk, _tags=tags)[0])
+                        sc_k = 1.0 + float(np.max(np.abs(cv)))
+                        require(bool(np.allclose(e1, b1, rtol=0, atol=1e-12 * sc_k)) and bool(np.allclose(e2, b2, rtol=0, atol=1e-12 * sc_k)),
+                                f"krige: estimate-only call differs from the estimate of the estimate-and-variance call on the same object "
+                                f"(before / after a new mean: {float(np.max(np.abs(e1 - b1))):.3g} / {float(np.max(np.abs(e2 - b2))):.3g})",
+                                dict(tags, kind="wrapper_estimate_only_vs_both"))
+                        f = np.concatenate([f, e1, e2])
                     results.append(np.concatenate([f, v]))
                 elif w in ("vario", "vario_dir"):
                     # 1-3 stacked fields with NaN at different points per field
